@@ -1497,6 +1497,9 @@ class Analyzer:
         k = nd['k']
         if k == 'int':
             return K(nd['v'])
+        if k == 'flt':
+            fv = nd.get('v')
+            return V(fv, fv) if isinstance(fv, (int, float)) and fv == fv and abs(fv) != INF else TOP
         if k == 'cast':
             return self.convert(self.peek(env, nd['c'][0]), int_type_range(nd.get('t', '')))
         if k == 'assign':
